@@ -46,6 +46,23 @@ impl<'a> Model<'a> {
 //@end
 //@stub base/src/model.rs Model::evaluate
 //@end
+// cell-level engine calls: they fail only for a position that is off the sheet list / grid (`cell_ok`); a successful input keeps the position valid
+    pub uninterp spec fn cell_ok(&self, sheet: u32, row: i32, column: i32) -> bool;
+//@stub base/src/links.rs Model::get_cell_link
+    ensures r.is_ok() == self.cell_ok(sheet, row, column)
+//@end
+//@stub base/src/model.rs Model::get_cell_style_or_none
+    ensures self.cell_ok(sheet, row, column) ==> r.is_ok()      // (also assumes the cell's style index exists: C27/C30 invariant of the style table)
+//@end
+//@stub base/src/model.rs Model::get_style_for_cell
+    ensures self.cell_ok(sheet, row, column) ==> r.is_ok()
+//@end
+//@stub base/src/model.rs Model::set_user_input
+    ensures r.is_err() ==> *final(self) == *old(self), r.is_ok() ==> final(self).cell_ok(sheet, row, column)
+//@end
+//@stub base/src/model.rs Model::set_user_array_formula
+    ensures r.is_err() ==> *final(self) == *old(self)
+//@end
 //@stub base/src/new_empty.rs Model::rename_sheet_by_index
     ensures r.is_err() ==> *final(self) == *old(self)
 //@end
@@ -93,6 +110,8 @@ impl Workbook {
     ensures r.is_ok() == ((worksheet_index as int) < self.worksheets@.len())
 //@end
 }
+#[verifier::external_body]
+pub fn shim_to_string(s: &str) -> (r: String) ensures r@ == s@ { s.to_string() }
 //@fn base/src/expressions/utils/mod.rs is_valid_column_number
 //@spec
     ensures r == (1 <= column <= 16384)
@@ -104,6 +123,8 @@ impl Workbook {
 //@rewrite `-> bool` => `-> (r: bool)`
 //@end
 impl Worksheet {
+//@stub base/src/worksheet.rs Worksheet::cell
+//@end
 //@stub base/src/worksheet.rs Worksheet::is_row_hidden
 //@end
 //@stub base/src/worksheet.rs Worksheet::is_column_hidden
@@ -235,6 +256,32 @@ impl<'a> UserModel<'a> {
                 invariant delta - (col - (column + delta)) <= new_delta <= delta, column + delta <= col <= column
 //@end
 
+// typing into a cell: everything that can fail does so before the engine takes the input, or cannot fail after it did
+//@fn base/src/user_model/common.rs UserModel::set_user_input_with_link_diffs
+//@spec
+    ensures r.is_err() ==> final(self).model == old(self).model,
+        final(self).history == old(self).history, final(self).send_queue == old(self).send_queue, final(self).pause_evaluation == old(self).pause_evaluation,
+//@rewrite `) -> Result<(), String> {` => `) -> (r: Result<(), String>) {`
+//@end
+/// UserModel::set_user_input up to the re-evaluation (D2: the row auto-fit that follows is f64 arithmetic Verus cannot translate)
+pub fn set_user_input_head(&mut self, sheet: u32, row: i32, column: i32, value: &str) -> (r: Result<Vec<Diff>, String>)
+    ensures r.is_err() ==> same_state(old(self), final(self)),
+        final(self).history == old(self).history, final(self).send_queue == old(self).send_queue,
+{
+//@fragment base/src/user_model/common.rs UserModel::set_user_input `if !is_valid_column_number(column) {` .. `self.set_user_input_with_link_diffs(sheet, row, column, value.to_string(), &mut diff_list)?;`
+//@rewrite* `value.to_string()` => `shim_to_string(value)`
+//@end
+    Ok(diff_list)
+}
+// array formula entry: the old cells are only READ before the single engine call, whose failure leaves everything alone
+//@fn base/src/user_model/common.rs UserModel::set_user_array_formula
+//@attr
+#[verifier::loop_isolation(false)]
+//@spec
+    requires -4194304 <= row <= 4194304 && -4194304 <= column <= 4194304 && -4194304 <= width <= 4194304 && -4194304 <= height <= 4194304
+    ensures r.is_err() ==> same_state(old(self), final(self)), r.is_ok() ==> one_entry(old(self), final(self)),
+//@rewrite `) -> Result<(), String> {` => `) -> (r: Result<(), String>) {`
+//@end
 // bulk setters: the whole request is validated before the first column/row is touched, so no `?` inside the loop can fire
 // after a mutation (R4: the inclusive-range `for` is read as the equivalent `while`, vstd has no iteration spec for RangeInclusive)
 //@fn base/src/user_model/common.rs UserModel::set_columns_width
